@@ -61,7 +61,15 @@ def main():
 
     if c.replay:
         rp = json.load(open(c.replay))
-        case = rp.get("case") or (rp.get("row") or [None] * 4)[3]
+        case = rp.get("case")
+        m = re.search(r"\[case=([^\]]*)\]", rp.get("oracle", ""))
+        if not case and m:
+            case = m.group(1)
+        if not case and rp.get("request") and rp.get("args"):
+            for r in harness(hb, rp.get("stream", "c16-fromast"), **rp["args"]):
+                if r[0] == rp["request"]:
+                    case = r[3]
+                    break
         if not case:
             print("replay file names no harness case (obligation-level violation):", rp.get("broken"))
             sys.exit(1)
